@@ -1,6 +1,6 @@
 (* C07 — processing is idempotent: a second run changes and reports nothing.
    Property theorems only: each is closed by `exact <lemma>`. *)
-From AD Require Import Bytes Outcome Gen Gzip GzipProofs Ar ArSpec ArProofs ArIdem PycHeader PycHeaderProofs Date Zip ZipProofs ZipRoundTrip Walk Javadoc JavadocProofs JavadocVariants StripIdem JavadocIdem Fs Helper HelperProofs Idem Marshal Pyc PycRoundTrip.
+From AD Require Import Bytes Outcome Gen Gzip GzipProofs Ar ArSpec ArProofs ArIdem PycHeader PycHeaderProofs Date Zip ZipProofs ZipRoundTrip Walk Javadoc JavadocProofs JavadocVariants StripIdem JavadocIdem JavadocDoc Fs Helper HelperProofs Idem Marshal Pyc PycRoundTrip.
 
 (* byte level: the handler finds nothing to change in its own output *)
 Theorem C07_gzip : forall epoch x y hm,
@@ -39,12 +39,21 @@ Proof. exact strip_stamps_idempotent. Qed.
 (* javadoc, a whole header line, both passes (stamp removal, then the date tag): a line the handler has rewritten
    is left alone when it is processed again - the date it wrote parses back as itself and is not later than
    the epoch (every day from 1970 to 2106 enumerated in the kernel), the tag it rewrote is still the leftmost
-   one, and the new value creates no stamp.  Epochs in [0, 2^32).  (Not closed: that a second pass over the
-   whole document splits it into the same lines and closes the header window at the same line.) *)
+   one, and the new value creates no stamp.  Epochs in [0, 2^32). *)
 Theorem C07_javadoc_line : forall epoch l l',
   (forall e, epoch = Some e -> (0 <= e < 4294967296)%Z) ->
   process_line epoch l = Some l' -> process_line epoch l' = None.
 Proof. exact process_line_idempotent. Qed.
+
+(* javadoc, the whole document: the handler run on its own output changes and reports nothing.  The output splits into
+   the lines that were written (no pass introduces a line feed or moves a carriage return to the end of a line), every
+   line inside the header window is left alone (C07_javadoc_line), and the window does not close later than it did the
+   first time ('</head>' survives both passes; a value that parses as a date holds no '<'), so no line is looked at that
+   was not looked at before.  Epochs in [0, 2^32), or none. *)
+Theorem C07_javadoc : forall epoch x y hm,
+  (forall e, epoch = Some e -> (0 <= e < 4294967296)%Z) ->
+  javadoc_process epoch x = Ok (y, hm) -> javadoc_process epoch y = Ok (y, false).
+Proof. exact javadoc_idempotent. Qed.
 
 (* zip/jar: a second pass over an archive written by the handler whose members are settled (not later than
    the epoch - which C07_zip_members_settled gives for the output of a first pass) reports nothing, whatever
@@ -83,6 +92,7 @@ Print Assumptions C07_pyc_zero_mtime.
 Print Assumptions C07_pyc.
 Print Assumptions C07_javadoc_stamps_partial.
 Print Assumptions C07_javadoc_line.
+Print Assumptions C07_javadoc.
 Print Assumptions C07_zip_members_settled.
 Print Assumptions C07_zip_second_pass.
 Print Assumptions C07_second_run_noop.
